@@ -13,6 +13,8 @@ package cluster
 //@ ghost TdReq: bool
 // teardowns started; the loop was left because shutdown was requested / because the hostnames could not be reserved
 //@ ghost TdStarted: int
+// the manifest group the most recently started deploy was given (doDeploy reads dm.mgroup when the worker starts)
+//@ ghost Deployed: ref
 //@ ghost ShutReq: bool
 //@ ghost HostErr: bool
 
@@ -45,8 +47,9 @@ package cluster
 //@ func (*deploymentManager).startDeploy
 //@   requires [serial] InFlight == 0
 //@   requires [notd] !TdReq
-//@   modifies dm.state, ghost ChanKind, ghost ChanPending, ghost InFlight
-//@   ensures dm.state == dsDeployActive && result != nil && fresh(result) && InFlight == 1
+//@   modifies dm.state, ghost ChanKind, ghost ChanPending, ghost InFlight, ghost Deployed
+//@   oncall cluster.(*deploymentManager).do 1 ghost Deployed := dm.mgroup
+//@   ensures dm.state == dsDeployActive && result != nil && fresh(result) && InFlight == 1 && Deployed == dm.mgroup
 //@   ensures ChanKind == old(ChanKind)[result := 1] && ChanPending == old(ChanPending)[result := true]
 //@ func (*deploymentManager).startTeardown
 //@   requires [serial] InFlight == 0
@@ -59,7 +62,8 @@ package cluster
 //@   nopanic explicit
 //@   requires InFlight == 0 && !TdReq && dm.state == dsDeployActive && dm.mgroup != nil && TdStarted == 0 && !ShutReq && !HostErr
 //@   requires dm.updatech != nil && dm.teardownch != nil && ChanKind[dm.updatech] == 0 && ChanKind[dm.teardownch] == 0
-//@   modifies dm.state, dm.mgroup, dm.monitor, dm.withdrawal, ghost ChanKind, ghost ChanPending, ghost InFlight, ghost TdReq, ghost TdStarted, ghost ShutReq, ghost HostErr
+//@   modifies dm.state, dm.mgroup, dm.monitor, dm.withdrawal, ghost ChanKind, ghost ChanPending, ghost InFlight, ghost TdReq, ghost TdStarted, ghost ShutReq, ghost HostErr, ghost Deployed
+//@   loop 1 invariant [latest] (dm.state == dsDeployActive && runch != nil) || dm.state == dsDeployComplete ==> Deployed == dm.mgroup
 //@   select 1 case 4 ghost TdReq := true
 //@   select 1 case 1 ghost ShutReq := true
 //@   select 1 case 0 ghost HostErr := HostErr || recv != nil
